@@ -326,10 +326,17 @@ func (ctx drawContext) drawStackingContext(stackingContext StackingContext) {
 			for _, childContext := range stackingContext.positiveZContexts {
 				ctx.drawStackingContext(childContext)
 			}
+
+			// Point 10, descendants: inside the overflow clip of this box
+			for _, child := range box.Children {
+				if child.Type().IsClassical() {
+					ctx.drawOutlines(child)
+				}
+			}
 		})
 
-		// Point 10
-		ctx.drawOutlines(box_)
+		// Point 10, the box itself: its outline is not clipped by its own overflow
+		ctx.drawOutline(box_)
 
 		if opacity < 1 {
 			group := ctx.dst
@@ -1241,6 +1248,16 @@ func (ctx drawContext) drawLine(x1, y1, x2, y2, thickness pr.Fl, style pr.String
 }
 
 func (ctx drawContext) drawOutlines(box_ Box) {
+	ctx.drawOutline(box_)
+	for _, child := range box_.Box().Children {
+		if child.Type().IsClassical() {
+			ctx.drawOutlines(child)
+		}
+	}
+}
+
+// drawOutline draws the outline of [box_] only
+func (ctx drawContext) drawOutline(box_ Box) {
 	box := box_.Box()
 	width_ := box.Style.GetOutlineWidth()
 	color := tree.ResolveColor(box.Style, pr.POutlineColor).RGBA
@@ -1257,12 +1274,6 @@ func (ctx drawContext) drawOutlines(box_ Box) {
 				ctx.drawRectBorder(outlineBox, pr.Rectangle{width, width, width, width},
 					style, styledColor(style, color, side))
 			})
-		}
-	}
-
-	for _, child := range box.Children {
-		if child.Type().IsClassical() {
-			ctx.drawOutlines(child)
 		}
 	}
 }
